@@ -208,6 +208,7 @@ pub fn generate_history(corpus: &[Project], seed: u64, property: &str, flavour: 
             }
         }
         if let Some(e) = edit {
+            *gen_faults.entry(format!("edit:{}", e.kind)).or_insert(0) += 1;
             for ch in e.changes {
                 match ch {
                     Change::Write { f, content } => {
